@@ -401,6 +401,7 @@ func (s *script) walk() {
 	steps := 4 + s.rng.Intn(14)
 	s.r.Count("op_walk", 1)
 	lastMove := ""
+	offBy := "" // "Next"/"Prev": the cursor left the range by that move from an entry and has only been moved the same way since
 	for st := 0; st < steps && !s.bad; st++ {
 		var ok bool
 		var name string
@@ -442,7 +443,7 @@ func (s *script) walk() {
 				// unpositioned cursor: either stays unpositioned or restarts at the first entry
 				exp = -1
 				alt = -1
-				if len(list) > 0 {
+				if len(list) > 0 && offBy != "Next" { // a forward scan that ran off the end stays ended
 					alt = 0
 				}
 			}
@@ -453,7 +454,9 @@ func (s *script) walk() {
 				exp = cur - 1
 			} else {
 				exp = -1
-				alt = len(list) - 1
+				if offBy != "Prev" { // a backward scan that ran off the front stays ended
+					alt = len(list) - 1
+				}
 			}
 		}
 		s.log("iter."+name, arg, nil)
@@ -506,6 +509,14 @@ func (s *script) walk() {
 			}
 			s.fail("iter-"+name+"-mismatch", fmt.Sprintf("range %s (%d entries): %s(%x) from %s landed on %s, want %s", rs, len(list), name, arg, from, desc(got), desc(exp)))
 			return
+		}
+		if (name == "Next" || name == "Prev") && got < 0 && (cur >= 0 || offBy == name) {
+			if cur < 0 {
+				s.r.Count("iter_ended_scan_stays_ended", 1)
+			}
+			offBy = name
+		} else {
+			offBy = ""
 		}
 		if cur < 0 && (name == "Next" || name == "Prev") {
 			if got >= 0 {
@@ -618,7 +629,7 @@ func TestC09(t *testing.T) {
 	defer r.Finish()
 	r.Rule("random operation scripts (put incl. empty/nil values, delete, get, find, foreach+len+size, full forward/backward range scans, random cursor walks First/Last/Seek/Next/Prev with direction changes, reset) over keys of length 0..4 from the alphabet {00,01,'a','b',7f,80,fe,ff}; ranges: nil, BytesPrefix(p), [a,b) with nil / empty / inverted bounds; every answer is compared with a map+sort model; up to 48 slices handed out by Get/Find/ForEach/iterators are kept uncopied per script and re-compared with their original contents after every Put/Delete, before Reset and at the end; one script in 40 is long (3000 ops) to grow tall skip lists; distinct = (trace length, live keys, tombstones, Size, NewMemDB capacities)")
 	r.Assume("a Put with an empty value leaves the key known (unknown=false) with an empty value, which is all the API can express for 'known absent'; tombstoned keys are part of scans with an empty value (that is how the layers above recognise deletions)")
-	r.Assume("Next/Prev on a cursor that is not positioned on an entry may either stay unpositioned or restart at the first/last entry of the range (goleveldb iterator convention); both are accepted")
+	r.Assume("Next/Prev on a cursor that is not positioned on an entry may either stay unpositioned or restart at the first/last entry of the range (goleveldb iterator convention); both are accepted, except that a scan which ran off the end of the range by Next (off the front by Prev) must stay ended when moved the same way again: otherwise a consumer would see keys out of byte order")
 	r.Assume("iterators are not used across mutations of the buffer (its documentation promises no consistent snapshot)")
 	r.Assume("retention: the buffer documents itself as append-only until Reset (NewMemDB / Size comments) and asks callers not to modify returned slices, so slices handed out by Get, Find, ForEach and the iterators' Key()/Value() (all sub-slices of that buffer) must keep their contents until Reset; the generic goleveldb Iterator comment that Key/Value may change on the next move is not relied upon by this implementation and HEAD keeps them stable, so they are included")
 	rng := r.Rand("c09")
@@ -637,7 +648,7 @@ func TestC09(t *testing.T) {
 		return // the run was cut short; the vacuity guards below would only add noise
 	}
 	for _, c := range []string{"op_put", "op_delete", "op_get", "op_find", "op_scan", "op_walk", "op_foreach", "op_reset", "op_put_empty_value",
-		"get_never_written", "get_known_absent", "get_live", "iter_First", "iter_Last", "iter_Seek", "iter_Next", "iter_Prev", "iter_direction_changes", "scan_empty_range", "slices_retained"} {
+		"get_never_written", "get_known_absent", "get_live", "iter_First", "iter_Last", "iter_Seek", "iter_Next", "iter_Prev", "iter_direction_changes", "iter_ended_scan_stays_ended", "scan_empty_range", "slices_retained"} {
 		r.Require(c, n/20)
 	}
 	r.Require("scan_entries", n)
